@@ -377,6 +377,8 @@ struct Case {
     prefix: usize,
     /// guard every action with the same `-name` test (a repeated pattern between new printers)
     guarded: bool,
+    /// the first action lies under this many extra operator levels (`( … -o -false )` repeated)
+    deep: usize,
 }
 
 fn case_tree(c: &Case) -> Expr {
@@ -394,6 +396,9 @@ fn case_tree(c: &Case) -> Expr {
         .collect();
     let mut it = items.into_iter();
     let mut tree = it.next().unwrap();
+    for _ in 0..c.deep {
+        tree = Expr::or(tree, Expr::Test(Test::False));
+    }
     for x in it {
         tree = Expr::and(tree, x);
     }
@@ -413,7 +418,9 @@ fn show(items: &[Action]) -> String {
 }
 
 fn show_case(c: &Case) -> String {
-    if c.prefix == 0 && !c.guarded {
+    if c.deep > 0 {
+        format!("[first action under {} operator levels] {}", c.deep, show(&c.items))
+    } else if c.prefix == 0 && !c.guarded {
         show(&c.items)
     } else {
         format!("[{} leading name tests{}] {}", c.prefix, if c.guarded { ", every action guarded by -name 'p*'" } else { "" }, show(&c.items))
@@ -421,7 +428,7 @@ fn show_case(c: &Case) -> String {
 }
 
 fn check(case: &Case, acc: &mut Acc) {
-    let wit = || json!({"kind": "c16", "actions": case.items, "threads": case.threads, "prefix": case.prefix, "guarded": case.guarded});
+    let wit = || json!({"kind": "c16", "actions": case.items, "threads": case.threads, "prefix": case.prefix, "guarded": case.guarded, "deep": case.deep});
     let tree = case_tree(case);
     let real = conv::expr_to_real(&tree).unwrap();
     let (text, io) = match compile_render(&real, &subject::options(false, None), "/dev") {
@@ -659,7 +666,7 @@ fn cases(tier: Tier) -> Vec<Case> {
                 (Tier::Thorough, 3, 1) => true,
                 _ => false,
             };
-            out.push(Case { items: p.clone(), threads, shuttle, prefix: 0, guarded: false });
+            out.push(Case { items: p.clone(), threads, shuttle, prefix: 0, guarded: false, deep: 0 });
         }
     }
     // larger identifier numbers and repeated patterns (model only)
@@ -670,10 +677,10 @@ fn cases(tier: Tier) -> Vec<Case> {
                 continue;
             }
             for (a, b) in [(0usize, 1usize), (1, 2), (1, 0), (2, 3), (4, 1)] {
-                out.push(Case { items: vec![fa[a].clone(), fa[b].clone()], threads: 2, shuttle: false, prefix, guarded });
+                out.push(Case { items: vec![fa[a].clone(), fa[b].clone()], threads: 2, shuttle: false, prefix, guarded, deep: 0 });
             }
             let pa = plain_actions();
-            out.push(Case { items: vec![pa[0].clone(), pa[1].clone()], threads: 2, shuttle: false, prefix, guarded });
+            out.push(Case { items: vec![pa[0].clone(), pa[1].clone()], threads: 2, shuttle: false, prefix, guarded, deep: 0 });
         }
     }
     out
@@ -696,6 +703,32 @@ pub fn run(ctx: &Ctx) -> i32 {
             Err(_) => acc.violate(Violation::new("C16:engine-crashed", format!("{} with {} threads", show(&c.items), c.threads), json!({"kind": "c16", "actions": c.items, "threads": c.threads}))),
         }
     });
+    // the first action far below the root (4095..5000 operator levels), the others near it:
+    // the choice between plain and framed output must still see it (model only, big stack)
+    let mut acc = acc;
+    {
+        let fa = framed_actions();
+        let pa = plain_actions();
+        let unterminated = Action::Printf(vec![Fmt::Field(Field::SizeBytes), Fmt::Lit(" ".into()), Fmt::Field(Field::NameNoStart)]);
+        let mut deep_cases = vec![];
+        for deep in [4095usize, 4096, 4097, 5000] {
+            for first in [unterminated.clone(), fa[0].clone(), fa[1].clone()] {
+                deep_cases.push(Case { items: vec![first, pa[0].clone()], threads: 2, shuttle: false, prefix: 0, guarded: false, deep });
+            }
+            deep_cases.push(Case { items: vec![pa[0].clone(), pa[1].clone()], threads: 2, shuttle: false, prefix: 0, guarded: false, deep });
+        }
+        let n = deep_cases.len();
+        match speclib::trees::on_big_stack(move || {
+            let mut a = Acc::new();
+            for c in &deep_cases {
+                check(c, &mut a);
+            }
+            a
+        }) {
+            Some(a) => acc = acc.merge(a),
+            None => acc.violate(Violation::new("C16:engine-crashed", format!("{n} programs whose first action lies 4095..5000 operator levels deep"), json!({"kind": "c16-deep"}))),
+        }
+    }
     let mut extra = serde_json::Map::new();
     extra.insert("programs_x_thread_counts".into(), json!(cs.len()));
     extra.insert("cases_replayed_under_shuttle".into(), json!(cs.iter().filter(|c| c.shuttle).count()));
@@ -722,7 +755,7 @@ pub fn replay(w: &Value) -> Vec<Violation> {
         let threads = w["threads"].as_u64().unwrap_or(2) as usize;
         let prefix = w["prefix"].as_u64().unwrap_or(0) as usize;
         let guarded = w["guarded"].as_bool().unwrap_or(false);
-        let c = Case { shuttle: prefix == 0 && !guarded && (threads * items.len() <= 3 || (threads == 2 && items.len() == 2)), items, threads, prefix, guarded };
+        let c = Case { shuttle: prefix == 0 && !guarded && (threads * items.len() <= 3 || (threads == 2 && items.len() == 2)), items, threads, prefix, guarded, deep: w["deep"].as_u64().unwrap_or(0) as usize };
         check(&c, &mut acc);
     }
     acc.violations.into_values().map(|(v, _)| v).collect()
